@@ -305,6 +305,7 @@ def _nodes():
         {"processor": lib.OpAdd, "parameters": {}},
         {"processor": lib.OpBoom, "parameters": {}},
         {"processor": lib.PrVal, "context_key": "res"},
+        {"processor": "rename:extra:moved"},  # consumes (removes) a key that only --context supplies: every run needs its own copy
         {"processor": lib.Snk, "parameters": {}},
     ]
 
@@ -338,7 +339,7 @@ def _p3_body(n, xs, fs, addend, idmode, attempt, warm=False, collide=False):
         flags["run_space_launch_id"] = "launch-explicit"
     elif idmode == 1:
         flags["run_space_idempotency_key"] = "idem-key"
-    cli_ctx = {"addend": addend}
+    cli_ctx = {"addend": addend, "extra": addend + 7}
     if collide:
         # --context also names a key the run space plans: run i must still execute with, and record, run i's planned value
         # (the property: 'run i produces the same result ... as a standalone run given run i's context')
@@ -393,7 +394,7 @@ def _p3_body(n, xs, fs, addend, idmode, attempt, warm=False, collide=False):
             return Fail("C09.P3:attempt:pipeline_start", "pipeline_start %d carries attempt %r, launched with %r" % (i, kw.get("run_space_attempt"), attempt))
         if kw.get("run_space_index") != i:
             return Fail("C09.P3:pipeline_start:index", "pipeline_start %d carries index %r" % (i, kw.get("run_space_index")))
-        exp_ctx = {"addend": addend, "value": xs[i], "fire": fires[i]}
+        exp_ctx = {"addend": addend, "extra": addend + 7, "value": xs[i], "fire": fires[i]}
         if not (kw.get("run_space_context") == exp_ctx):
             return Fail("C09.P3:pipeline_start:context", "pipeline_start %d carries context %r, run %d's context is %r" % (i, kw.get("run_space_context"), i, exp_ctx))
     # ---- run i == standalone run on run i's context
@@ -412,7 +413,7 @@ def _p3_body(n, xs, fs, addend, idmode, attempt, warm=False, collide=False):
         from semantiva.data_types import NoDataType
 
         try:
-            lib.run_pipeline(_nodes(), NoDataType(), {"addend": addend, "value": xs[i], "fire": fires[i]}, trace=t2)
+            lib.run_pipeline(_nodes(), NoDataType(), {"addend": addend, "extra": addend + 7, "value": xs[i], "fire": fires[i]}, trace=t2)
         except Exception:  # noqa: BLE001
             pass
         alone_log += list(lib.LOG)
@@ -454,7 +455,7 @@ def obligations(tier: str) -> List[Ob]:
            targets=["semantiva/trace/runtime/run_space_identity.py:RunSpaceIdentityService._sha256_file"], stubs=["injective-hash model"]),
         Ob("C09.P3", _make_p3, lambda p, a: C04._wrap(_p3_body(p[0], [a["x0"], a["x1"], a["x2"]], [a["f0"], a["f1"], a["f2"]], a["addend"], p[1], p[2], bool(p[3]) if len(p) > 3 else False, a.get("collide", False))), budget=900, per_path=120,
            params=[(n, i, at) for n in (1, 2, 3) for i in (0, 1, 2) for at in (1, 2, 3)] + [(2, i, at, True) for i in (0, 1, 2) for at in (1, 2)],
-           bound="real cli._run, one obligation per (n runs in 1..3, launch-id option, attempt): per-run context values and shared --context value symbolic, --context optionally naming a planned key too (flag), failing run chosen by 3 symbolic flags; 6 extra obligations repeat the identical launch after it already ran once in the process; launch-id option (explicit / idempotency key / generated) and attempt 1..3 symbolic; 5-node pipeline",
+           bound="real cli._run, one obligation per (n runs in 1..3, launch-id option, attempt): per-run context values and shared --context value symbolic, --context optionally naming a planned key too (flag), failing run chosen by 3 symbolic flags; 6 extra obligations repeat the identical launch after it already ran once in the process; launch-id option (explicit / idempotency key / generated) and attempt 1..3 symbolic; 6-node pipeline (incl. a rename that consumes a --context-only key)",
            targets=["semantiva/cli/__init__.py:_run", "semantiva/trace/runtime/run_space_emitter.py:RunSpaceTraceEmitter.emit_start", "semantiva/trace/runtime/run_space_emitter.py:RunSpaceTraceEmitter.emit_end", "semantiva/pipeline/pipeline.py:Pipeline.set_run_metadata", "semantiva/execution/orchestrator/orchestrator.py:SemantivaOrchestrator.execute"], stubs=list(STUBS) + cliharness.STUBS),
     ]
 
